@@ -552,6 +552,37 @@ fn main() {
             r.cases, format!("bytes {:02X?}", enc::BYTES), max_len, 4, r.encodings, r.violations.join(","));
         std::process::exit(if r.violations.is_empty() { 0 } else { 1 });
     }
+    if prop == "C14" {
+        // offsets beyond 32 bits: a start tag (split over two writes) after 2^32 + 12345 bytes of text written in 4 MiB pieces
+        let seen = Rc::new(RefCell::new(vec![]));
+        let s2 = seen.clone();
+        let settings = Settings::new().append_element_content_handler(element!("a", move |el| {
+            let t = el.source_location().bytes();
+            let mut v = vec![(t.start, t.end)];
+            for a in el.attributes() { if let (Some(n), Some(val)) = (a.name_source_location(), a.value_source_location()) { v.push((n.bytes().start, n.bytes().end)); v.push((val.bytes().start, val.bytes().end)); } }
+            s2.borrow_mut().push(v);
+            Ok(())
+        }));
+        let filler = vec![b'x'; 4 << 20];
+        let pad: usize = (1usize << 32) + 12345;
+        let mut rw = HtmlRewriter::new(settings, |_: &[u8]| {});
+        let mut written = 0usize;
+        while written < pad { let n = (pad - written).min(filler.len()); rw.write(&filler[..n]).unwrap(); written += n; }
+        rw.write(b"<a href=\"x\" i").unwrap();
+        rw.write(b"d=main>").unwrap();
+        rw.end().unwrap();
+        rep.cases += 1;
+        let want = vec![vec![(pad, pad + 20), (pad + 3, pad + 7), (pad + 9, pad + 10), (pad + 12, pad + 14), (pad + 15, pad + 19)]];
+        if *seen.borrow() != want {
+            rep.violations.push(format!("{{\"what\":\"source locations after more than 4 GiB of earlier input are not the absolute offsets\",\"input\":\"x * (2^32 + 12345) then <a href=\\\"x\\\" id=main> split over two writes\",\"detail\":{:?}}}", format!("got {:?} want {:?}", seen.borrow(), want)));
+        }
+    }
+    if prop == "C05" {
+        let r = sel::run_c05(max_len);
+        println!("{{\"property\":\"C05\",\"cases\":{},\"alphabet\":{:?},\"exhaustive_len\":{},\"seed_documents\":{},\"max_cuts\":0,\"scope_mode\":true,\"violations\":[{}]}}",
+            r.cases, "tokens: <a> <b> <a class=c> <b id=x k=v> </a> </b> <br> <A K=V> <b class=\"d c\" k=\"v-w\">", max_len, sel::SEED_DOCS.len(), r.violations.join(","));
+        std::process::exit(if r.violations.is_empty() { 0 } else { 1 });
+    }
     if prop == "C04" {
         let r = sel::run_c04(max_len);
         println!("{{\"property\":\"C04\",\"cases\":{},\"alphabet\":{:?},\"exhaustive_len\":{},\"seed_documents\":{},\"max_cuts\":0,\"selectors\":{},\"unsupported\":{:?},\"violations\":[{}],\"known_class_not_compound\":[{}]}}",
